@@ -27,6 +27,17 @@ let handle (line : string) : string =
                     Stdlib.List.map (fun w -> Printf.sprintf "B%s[%s]" w (bitable_of qs hs qs' w)) ["Z"; "Q"; "F2"; "F3"])
               else [] in
             String.concat " " (base @ bi)))
+     | ["hr"; h; t; _a; _b; _k] ->
+        (* builder option h_range: the implementation prints its unrestricted table over Z and whether the restricted
+           build agrees with it inside the range; the oracle supplies the table, computing the signs itself *)
+        let l = parse_link ls in
+        (match signed_nums l with
+         | None -> "MODEL-SIGNS-NONE"
+         | Some (_, nn) ->
+            let c = build_cube l None (z_of_string h) (z_of_string t) in
+            (match kh_groups c with
+             | None -> "MODEL-NONE"
+             | Some gs -> Printf.sprintf "Z[%s] | same=1" (table_of gs (- (int_of_nat nn)) "Z")))
      | _ -> failwith "bad case head")
 
 let () = run_lines handle
